@@ -48,6 +48,8 @@ DEFAULT_KNOBS = Knobs(
     p_zero_params=0.06,
     p_hostile_doc=0.35,
     p_long_doc=0.15,
+    p_return_over_params=0.12,  # the returned expression mentions parameters ("a + b")
+    p_boundary_doc=0.1,  # prose of an exact length around the wrap width, so that the break falls inside / next to the default sentence
     p_multi_line_summary=0.3,
     p_long_summary=0.15,
     hostile_strings=False,  # thorough: strings with interior full stop / quotes
@@ -112,6 +114,16 @@ class IRGen:
                     ws.insert(at, r.choice(["-", "--", "(lo - hi)", "pre- and", "well-known", "https://example.org/zq/a_rather_long_path/of_the_documentation.html"]))
                 text = " ".join(ws)
             return text, "long"
+        if self.k.p_boundary_doc and self.chance(self.k.p_boundary_doc):
+            want = r.randint(60, 98)
+            text = "the {} setting".format(tag)
+            for w in self._words(30).split(" "):
+                if len(text) + 1 + len(w) > want:
+                    break
+                text += " " + w
+            if want - len(text) >= 2:
+                text += " " + "x" * (want - len(text) - 1)
+            return text, "boundary"
         if self.chance(self.k.p_hostile_doc):
             kind = r.choice(
                 [
@@ -380,14 +392,22 @@ class IRGen:
             if self.chance(k.p_return_default):
                 nn = self._u()
                 kind = r.choice(["paren_tuple", "code_call", "code_tuple", "code_name", "code_arith"])
-                rt["default"] = {
+                pnames = [n for n in params if not n.endswith("kwargs")]
+                if pnames and self.chance(k.p_return_over_params):
+                    # the returned expression is computed from the parameters (as real functions do)
+                    rt["default"] = "```{} + {}```".format(pnames[0], pnames[-1]) if len(pnames) > 1 else "```{} * 2```".format(pnames[0])
+                    kind = "code_arith_over_params"
+                else:
+                    rt["default"] = None
+                rt["default"] = rt["default"] or {
                     "paren_tuple": "(np.empty({0}), np.empty({0}))".format(nn),
                     "code_call": "```np.empty({})```".format(nn),
                     "code_tuple": "```(np.empty({0}), np.empty({0}))```".format(nn),
                     "code_name": "```result_{}```".format(nn),
                     "code_arith": "```{} + 1```".format(nn),
+                    "code_arith_over_params": None,
                 }[kind]
-                rdc = kind
+                rdc = "code_arith" if kind == "code_arith_over_params" else kind
                 if k.p_return_literal_source and self.chance(k.p_return_literal_source):
                     rt["default"], rdc = r.choice(["5", "0.5", "True", "'mnist'"]), "literal_source"
             if not rt:
